@@ -211,6 +211,9 @@ func (rp *Report) Finish() {
 	}
 }
 
+// VERIF_RACE=1 switches the map-access race monitor on for every explored item (diagnostic sweep).
+var raceAll = os.Getenv("VERIF_RACE") == "1"
+
 func defaultPost(x *Exec, res *rt.Result) {
 	if res.Deadlock {
 		x.Fail("deadlock", "", "blocked threads: %v", res.Blocked)
@@ -226,7 +229,7 @@ func (rp *Report) runOnce(it *Item, prefix []int, fps []uint64, trace bool) (*Ex
 
 func (rp *Report) runOnceV(it *Item, prefix []int, fps []uint64, trace bool, visit func(uint64, int) bool) (*Exec, *rt.Result) {
 	x := &Exec{Item: it.Name}
-	cfg := rt.Config{Prefix: prefix, PrefixFP: fps, MaxSteps: it.MaxSteps, MaxClock: it.MaxClock, Trace: trace, Visit: visit, Race: it.Race}
+	cfg := rt.Config{Prefix: prefix, PrefixFP: fps, MaxSteps: it.MaxSteps, MaxClock: it.MaxClock, Trace: trace, Visit: visit, Race: it.Race || raceAll}
 	res := rt.Execute(cfg, func() { it.Body(x) })
 	x.Res = res
 	for _, rc := range res.Races {
